@@ -110,6 +110,6 @@ class DWT1DInverse(nn.Module):
 
             # 'Unpad' added signal
             if x0.shape[-1] > x1.shape[-1]:
-                x0 = x0[..., :-1]
+                x0 = x0[..., :x1.shape[-1]]
             x0 = lowlevel.SFB1D.apply(x0, x1, self.g0, self.g1, mode)
         return x0
